@@ -804,3 +804,120 @@ Qed.
 (* an FJSP job line that announces more operations than it holds is refused (IndexError) *)
 Theorem fjsp_parse_ops_rejects_exhausted n : parse_ops (S n) [] = Raises.
 Proof. reflexivity. Qed.
+
+(* ------------------------------------------------------------------------------------------ directories of files *)
+Lemma lmax_ge n r x : In x (n :: r) -> x <= lmax n r.
+Proof.
+  unfold lmax. induction r as [|y r IH]; simpl.
+  - intros [<-|[]]. lia.
+  - intros [<-|[<-|H]].
+    + specialize (IH (or_introl eq_refl)). lia.
+    + lia.
+    + specialize (IH (or_intror H)). lia.
+Qed.
+
+Lemma fjsp_n_ops_written (fmt : Z -> Z -> tok) g f :
+  wf_fjspb g = true ->
+  (exists v, parse_num (fmt (count_pos (g_pt g)) (count_real (g_pad g))) = Ok v) ->
+  fjsp_write fmt (reset_view g) = Ok f -> n_ops_of fjsp_parse_job_line f = Ok (g_total g).
+Proof.
+  intros Hwf [v Hv] Hf. pose proof (wf_fjspb_wfP g Hwf) as Hw. set (l := map Z.to_nat (g_nops g)) in *.
+  rewrite (fjsp_write_ok g l Hw) in Hf. injection Hf as <-. unfold n_ops_of.
+  rewrite (file2lines_written _ [Z.of_nat (length l); Z.of_nat (length (g_pt g)); v])
+    by (cbn [mapM parse_num bind]; rewrite Hv; reflexivity).
+  cbn [bind tl]. rewrite parse_written_lines. cbn [bind].
+  rewrite written_nops, sumZ_of_nat, (wfP_total g l Hw). reflexivity.
+Qed.
+
+Lemma jssp_n_ops_format g : wf_jsspb g = true -> n_ops_of jssp_parse_job_line (jssp_format g) = Ok (g_total g).
+Proof.
+  unfold wf_jsspb. intros H. apply andb_prop in H as [Hwf Hone].
+  pose proof (wf_fjspb_wfP g Hwf) as Hw. set (l := map Z.to_nat (g_nops g)) in *.
+  rewrite (jssp_format_spans g l Hw). unfold n_ops_of.
+  rewrite (file2lines_written _ [Z.of_nat (length l); Z.of_nat (length (g_pt g))]) by reflexivity.
+  cbn [bind tl]. unfold spans. rewrite jssp_parse_spans.
+  - cbn [bind]. fold (spans l). fold (written_jobs g l). rewrite written_nops, sumZ_of_nat, (wfP_total g l Hw). reflexivity.
+  - intros o Ho. rewrite forallb_forall in Hone. unfold pairs. rewrite map_length.
+    apply Nat.eqb_eq. apply Hone. apply in_seq. rewrite (wfP_total g l Hw). lia.
+Qed.
+
+Lemma mapM_Forall2 {A B} (f : A -> res B) l : forall out, mapM f l = Ok out -> Forall2 (fun a b => f a = Ok b) l out.
+Proof.
+  induction l as [|a l IH]; intros out H; simpl in H.
+  - injection H as <-. constructor.
+  - destruct (f a) as [b| |] eqn:E; try discriminate. simpl in H.
+    destruct (mapM f l) as [bs| |] eqn:E2; try discriminate. simpl in H. injection H as <-.
+    constructor; [exact E|]. apply IH. reflexivity.
+Qed.
+
+Lemma Forall2_len {A B} (R : A -> B -> Prop) l m : Forall2 R l m -> length l = length m.
+Proof. induction 1; simpl; congruence. Qed.
+
+Lemma mapM_ok2 {A B C} (f : B -> res C) (h : A -> C) (l : list A) (m : list B) :
+  Forall2 (fun a b => f b = Ok (h a)) l m -> mapM f m = Ok (map h l).
+Proof. induction 1; simpl; [reflexivity|]. rewrite H, IHForall2. reflexivity. Qed.
+
+(* a directory of >= 2 instance files through the file generator: every instance, padded to the largest one *)
+Definition dir_width (gs : list ginst) : Z := match map g_total gs with [] => 0 | n :: r => lmax n r end.
+
+Lemma Forall2_In_impl {A B} (P Q : A -> B -> Prop) l m :
+  (forall a b, In a l -> P a b -> Q a b) -> Forall2 P l m -> Forall2 Q l m.
+Proof.
+  intros H F. induction F as [|a b l m H1 H2 IH]; constructor.
+  - apply H; [left; reflexivity|exact H1].
+  - apply IH. intros a' b' Hin. apply H. right. exact Hin.
+Qed.
+
+Lemma file_generator_roundtrip_gen (pj : list Z -> res (list (list (Z * Z)))) gs files n_ops_max :
+  (2 <= length gs)%nat ->
+  Forall2 (fun g f => n_ops_of pj f = Ok (g_total g)) gs files ->
+  (forall mo, Forall2 (fun g f => max_ops_ok mo (g_total g) ->
+                               read_with pj mo f = Ok (repad (Z.to_nat (read_width mo (g_total g))) g)) gs files) ->
+  file_generator pj n_ops_max files = Ok (map (repad (Z.to_nat (dir_width gs))) gs).
+Proof.
+  intros Hlen Hn Hr. pose proof (Forall2_len _ _ _ Hn) as HL.
+  unfold file_generator. destruct files as [|f0 fr] eqn:EF; [destruct gs; simpl in *; lia|]. rewrite <- EF in *.
+  replace (Nat.ltb 1 (length files)) with true by (symmetry; apply Nat.ltb_lt; lia).
+  unfold max_ops_from_files.
+  rewrite (mapM_ok2 (n_ops_of pj) g_total gs files) by exact Hn. cbn [bind].
+  destruct (map g_total gs) as [|n r] eqn:EM; [destruct gs; simpl in *; [lia|discriminate]|].
+  cbn [bind]. assert (EW : dir_width gs = lmax n r) by (unfold dir_width; rewrite EM; reflexivity).
+  apply (mapM_ok2 (read_with pj (Some (lmax n r))) (repad (Z.to_nat (dir_width gs))) gs files).
+  refine (Forall2_In_impl _ _ gs files _ (Hr (Some (lmax n r)))).
+  intros g f Hin H. rewrite EW. apply H. simpl. apply lmax_ge. rewrite <- EM. apply in_map. exact Hin.
+Qed.
+
+Theorem jssp_file_generator_roundtrip gs n_ops_max :
+  (2 <= length gs)%nat -> forallb wf_jsspb gs = true ->
+  file_generator jssp_parse_job_line n_ops_max (map jssp_format gs) = Ok (map (repad (Z.to_nat (dir_width gs))) gs).
+Proof.
+  intros Hlen Hwf. rewrite forallb_forall in Hwf. apply file_generator_roundtrip_gen; [exact Hlen| |].
+  - clear Hlen. induction gs as [|g r IH]; simpl; constructor.
+    + apply jssp_n_ops_format. apply Hwf. left. reflexivity.
+    + apply IH. intros x Hx. apply Hwf. right. exact Hx.
+  - intros mo. clear Hlen. induction gs as [|g r IH]; simpl; constructor.
+    + intros Hmo. apply jssp_text_roundtrip; [apply Hwf; left; reflexivity|exact Hmo].
+    + apply IH. intros x Hx. apply Hwf. right. exact Hx.
+Qed.
+
+Theorem fjsp_file_generator_roundtrip gs files n_ops_max :
+  (2 <= length gs)%nat ->
+  forallb (fun g => wf_fjspb g && (count_real (g_pad g) <=? count_pos (g_pt g))) gs = true ->
+  mapM (fun g => fjsp_write fmt5 (reset_view g)) gs = Ok files ->
+  file_generator fjsp_parse_job_line n_ops_max files = Ok (map (repad (Z.to_nat (dir_width gs))) gs).
+Proof.
+  intros Hlen Hwf Hfiles. rewrite forallb_forall in Hwf. apply mapM_Forall2 in Hfiles.
+  assert (Hg : forall g, In g gs -> wf_fjspb g = true /\ count_real (g_pad g) <= count_pos (g_pt g) /\
+                                   exists v, parse_num (fmt5 (count_pos (g_pt g)) (count_real (g_pad g))) = Ok v).
+  { intros g Hin. specialize (Hwf g Hin). apply andb_prop in Hwf as [H1 H2]. split; [exact H1|]. split; [lia|].
+    apply fmt5_parses; [|lia].
+    pose proof (count_real_pos g _ (wf_fjspb_wfP g H1)). pose proof (count_real_nonneg (g_pad g)). lia. }
+  apply file_generator_roundtrip_gen; [exact Hlen| |].
+  - clear Hlen Hwf. induction Hfiles as [|g f gs' fs' H1 H2 IH]; constructor.
+    + destruct (Hg g (or_introl eq_refl)) as (A & _ & B). exact (fjsp_n_ops_written fmt5 g f A B H1).
+    + apply IH. intros x Hx. apply Hg. right. exact Hx.
+  - intros mo. clear Hlen Hwf. induction Hfiles as [|g f gs' fs' H1 H2 IH]; constructor.
+    + intros Hmo. destruct (Hg g (or_introl eq_refl)) as (A & B & _).
+      pose proof (fjsp_text_roundtrip g mo A B Hmo) as E. rewrite H1 in E. exact E.
+    + apply IH. intros x Hx. apply Hg. right. exact Hx.
+Qed.
